@@ -224,4 +224,25 @@ def selftest(ck):
     t[e:e] = [{'ev': 'rm.spawn'}, {'ev': 'proc.exec', 'k': 2}]
     _, r4 = LC.validate(ck, {i: t}, 'st4')
     common.log('selftest: try { false ; true } with the second command started -> %s' % ('rejected' if r4 else 'ACCEPTED'))
-    return good and bool(r1) and bool(r2) and bool(r3) and bool(r4)
+    # StreamUse.tla: a pipe-use log with one `open` event removed / one `close` duplicated must be flagged
+    import subprocess
+    mxh = common.build_mxh()
+    inp, outp, evp = (os.path.join(ck.scratch, 'su-' + x) for x in ('in.ndjson', 'out.ndjson', 'ev.ndjson'))
+    common.write_ndjson(inp, [{'id': 1, 'src': 'a [a,b] -> foreach v { out "x$v" } -> cast str'}])
+    subprocess.run([mxh, 'run-programs', '-in', inp, '-out', outp, '-suevents', evp], check=True, timeout=300)
+    rows = common.read_ndjson(evp)
+
+    def su(rs, label):
+        r = common.tlc('StreamUse', 'StreamUse.cfg', os.path.join(ck.scratch, label), workers=1, timeout=600,
+                       files={'trace.ndjson': ''.join(json.dumps(x) + '\n' for x in rs)})
+        return bool(r.violated)
+    s0 = su(rows, 'su0')
+    common.log('selftest: pristine pipe-use log (%d events) -> %s' % (len(rows), 'FLAGGED' if s0 else 'accepted'))
+    i = [k for k, x in enumerate(rows) if x['ev'] == 'open'][1]
+    s1 = su(rows[:i] + rows[i + 1:], 'su1')
+    common.log('selftest: one open event removed -> %s' % ('flagged' if s1 else 'ACCEPTED'))
+    j = [k for k, x in enumerate(rows) if x['ev'] == 'close'][-1]
+    extra = dict(rows[j], n=rows[j]['n'] - 1)
+    s2 = su(rows[:j + 1] + [extra] + rows[j + 1:], 'su2')
+    common.log('selftest: last close of a pipe repeated (counter -1) -> %s' % ('flagged' if s2 else 'ACCEPTED'))
+    return good and bool(r1) and bool(r2) and bool(r3) and bool(r4) and not s0 and s1 and s2
